@@ -47,7 +47,15 @@ Fixpoint to_obs (cf : lcfg) (hist : list bool) (lr : lastrej) (log : list lev) :
 
 Definition model_cfg (cf : lcfg) : cfg := mkCfg (l_engine cf) (l_proc cf) true.
 
-Definition accepted (c : lcase) : bool := accepts (model_cfg (lc_cfg c)) (to_obs (lc_cfg c) [] LRNone (lc_log c)).
+(* the acceptor gives a log up when more than [acc_cap] model states are compatible with it *)
+Definition acc_cap : nat := 300.
+
+(* false only when the model REJECTS the log (a log that was given up is not counted as a disagreement) *)
+Definition accepted (c : lcase) : bool :=
+  match accepts (model_cfg (lc_cfg c)) acc_cap (to_obs (lc_cfg c) [] LRNone (lc_log c)) with
+  | Some false => false
+  | _ => true
+  end.
 
 Definition code_of (acc : bool) (v : N) : nat :=
   (if acc then 0 else 1) + (if N.eqb v 0 then 0 else 2) + N.to_nat (N.land v (N.lnot 3 16)).
@@ -57,4 +65,4 @@ Definition chk11 (c : lcase) : nat := code_of (accepted c) (mon11 (lc_log c)).
 
 (* diagnostics: where the acceptor gives up *)
 Definition where_rejected (c : lcase) : option nat :=
-  rejects_at (model_cfg (lc_cfg c)) (to_obs (lc_cfg c) [] LRNone (lc_log c)).
+  rejects_at (model_cfg (lc_cfg c)) acc_cap (to_obs (lc_cfg c) [] LRNone (lc_log c)).
